@@ -84,17 +84,22 @@ def design_checks(ctx):
 # change behaviour in a narrow window of scales: the pinned tree's super-triangle failed for sets between 0.100
 # and 0.108 high), a few extreme scales, and offsets by large multiples of the spacing.
 def _transforms():
-    out = [("identity", 0, [0, 0], 0, 1)]
+    out = [("identity", 0, [0, 0], 0, 1, 0, 0)]
     for k in range(-13, 5):
         for mul in (1, 9, 5, 11, 3, 13, 7, 15, 17, 19, 21, 23, 25, 27, 29, 31):
             if not (k == 0 and mul == 1):
-                out.append(("scaled", k - (mul.bit_length() - 1), [0, 0], 0, mul))
+                out.append(("scaled", k - (mul.bit_length() - 1), [0, 0], 0, mul, 0, 0))
     for k in (-40, -30, -20, 12, 20, 30, 40):
-        out.append(("scaled", k, [0, 0], 0, 1))
+        out.append(("scaled", k, [0, 0], 0, 1, 0, 0))
     for j, m in (([977, -431], 30), ([-138, 897], 24), ([613, 22], 12), ([-1000, 1000], 40), ([3, -5], 0)):
-        out.append(("offset", 0, j, m, 1))
-        out.append(("scaled-offset", -5, j, m, 3))
-        out.append(("scaled-offset", 7, j, min(m, 36), 5))
+        out.append(("offset", 0, j, m, 1, 0, 0))
+        out.append(("scaled-offset", -5, j, m, 3, 0, 0))
+        out.append(("scaled-offset", 7, j, min(m, 36), 5, 0, 0))
+    # anisotropic copies: one axis stretched by 2^a (the judge works in that metric): aspect ratios 2:1 .. 1024:1
+    for a in range(1, 11):
+        for rep in range(4):
+            out.append(("stretched", -a // 2, [0, 0], 0, 1, a, 0))
+            out.append(("stretched", -a // 2, [0, 0], 0, 1, 0, a))
     return out
 
 
@@ -102,6 +107,8 @@ TRANSFORMS = _transforms()
 
 
 def transform_of(c):
+    if c.get("ax", 0) or c.get("ay", 0):
+        return "stretched"
     if c["k"] == 0 and c["j"] == [0, 0] and c.get("mul", 1) == 1:
         return "identity"
     if c["j"] == [0, 0]:
@@ -164,8 +171,9 @@ def report(ctx, vh, cases, findings, confirm=True):
             if (n, f["pred"]) not in got:
                 raise core.Infra("rejection %s of case %d does not reproduce in 6 re-executions" % (sig, f["case"]))
     for sig, f, c in picked:
-        what = "%s rejected the triangulation of %d points (%s: scale %d*2^%d, offset %s*2^%d, tag %s): %d triangles returned" % (
-            f["pred"], f["n"], transform_of(c), c.get("mul", 1), c["k"], c["j"], c["m"], c.get("tag"), f["tris"])
+        what = "%s rejected the triangulation of %d points (%s: scale %d*2^%d, offset %s*2^%d, stretch 2^%d:2^%d, tag %s): %d triangles returned" % (
+            f["pred"], f["n"], transform_of(c), c.get("mul", 1), c["k"], c["j"], c["m"], c.get("ax", 0), c.get("ay", 0),
+            c.get("tag"), f["tris"])
         ctx.violation(sig, what, {"family": "delaunay", "pred": f["pred"], "case": c})
 
 
@@ -297,8 +305,8 @@ def run(ctx):
         if quick and len(pts) > 3 and n % 3 != ctx.seed % 3:
             continue
         trs = [TRANSFORMS[0]] + ([TRANSFORMS[rng.randrange(1, len(TRANSFORMS))]] if n % 2 == 0 or not quick else [])
-        for name, k, j, m, mul in trs:
-            cases.append({"tag": "bfs-" + name, "pts": pts, "k": k, "j": j, "m": m, "mul": mul})
+        for name, k, j, m, mul, ax, ay in trs:
+            cases.append({"tag": "bfs-" + name, "pts": pts, "k": k, "j": j, "m": m, "mul": mul, "ax": ax, "ay": ay})
     nb1 = len(cases)
     d = ctx.scratch("rnd")
     plans = [(900, 32, ctx.seed)] if quick else [(6000, 40, ctx.seed * 100), (600, 90, ctx.seed * 100 + 1)]
@@ -306,6 +314,12 @@ def run(ctx):
         p = os.path.join(d, "cases-%d.ndjson" % seed)
         core.run_vh(vh, ["dt-random", "-out", p, "-seed", str(seed), "-n", str(n), "-maxn", str(maxn)])
         cases += core.read_ndjson(p)
+    # aspect-ratio ladder 1.5:1 .. 1000:1, wide and tall (stretched copies; the judge works in the stretched metric)
+    p = os.path.join(d, "aspect.ndjson")
+    core.run_vh(vh, ["dt-aspect", "-out", p, "-seed", str(ctx.seed), "-per", "2" if quick else "12", "-max", "1000"])
+    ladder = core.read_ndjson(p)
+    ctx.extra["aspect_ladder_cases"] = len(ladder)
+    cases += ladder
     # spread the large seeded sets over the shards
     b1, b2 = cases[:nb1], cases[nb1:]
     random.Random(ctx.seed).shuffle(b2)
@@ -337,7 +351,7 @@ def run(ctx):
                      empty_results=notes["empty"], nonempty_accepted=nonempty, triangles_judged=ntri,
                      max_points=max(len(c["pts"]) for c in cases),
                      by_transform={k: sum(1 for c in cases if transform_of(c) == k)
-                                   for k in ("identity", "scaled", "offset", "scaled-offset")})
+                                   for k in ("identity", "scaled", "offset", "scaled-offset", "stretched")})
     if gp == 0 or nonempty + bad_cases < gp // 2:
         raise core.Infra("vacuous run: %d of %d general-position inputs gave an empty triangulation; the four consequents "
                          "are only exercised by non-empty results" % (notes["empty"], gp))
